@@ -218,6 +218,8 @@ pub enum ElevPattern {
     Sails,
     RunsOfOne,
     Many255,
+    /// 255 elevations of `radials_per_run` radials each: tens of thousands of radials in one volume
+    ManyLong,
 }
 
 pub struct VolParams {
@@ -262,6 +264,7 @@ pub fn elevation_runs(rng: &mut Rng, p: &VolParams) -> Vec<(u8, usize)> {
             v
         }
         ElevPattern::Many255 => (0..255u32).map(|e| ((e + 1) as u8, rng.urange(1, 3))).collect(),
+        ElevPattern::ManyLong => (0..255u32).map(|e| ((e + 1) as u8, len(rng))).collect(),
     }
 }
 
